@@ -1281,4 +1281,129 @@ theorem continueAfter_b {g : Graph} {c : Nat} {M : Option Int} {sh : Shape} (hc 
     simp only [hp, Bool.false_and, Bool.false_eq_true, if_false]
     exact tail _ _ _ b2 (fun _ => hid)
 
+theorem resumeTest_b {g : Graph} {c : Nat} {M : Option Int} {sh : Shape} (hc : BClass g c M sh) (hwf : GraphWF g)
+    (s : State) (w n : Nat) (phase : Phase) (dir : Dir) (uid : String) (tag wait : Nat) (out : Outcome) (fuel : Nat)
+    (hw : w < g.workers.length) (hf : 0 < fuel) (b : BInv g c M sh s All) (bas : Basic g s All)
+    (hpc : (s.wd w).pc = .test n phase dir uid tag wait) :
+    BInv g c M sh (resumeTest g s w n phase dir uid tag wait out fuel).1 All := by
+  rw [resumeTest_eq]
+  obtain ⟨hrn, hrw⟩ := reportOutcome_same g s w n phase uid wait out
+  have br : BInv g c M sh (reportOutcome g s w n phase uid wait out).1 All := b.quiet hrn hrw
+  have hpcr : ((reportOutcome g s w n phase uid wait out).1.wd w).pc = .test n phase dir uid tag wait := by
+    rw [wd_of_workers_eq hrw]; exact hpc
+  have hndr : ∀ j, (reportOutcome g s w n phase uid wait out).1.nd j = s.nd j := nd_of_nodes_eq' hrn
+  -- the exhausted wait and the found result, for a copy of the class, go through `finish_b`
+  have hother : (g.node n).cls ≠ c → BInv g c M sh (reportOutcome g s w n phase uid wait out).1 (Ex w) := by
+    intro hnc
+    apply br.open w
+    rw [hpcr]; exact notInC_test hnc _ _ _ _ _
+  split
+  · next st0 dur _ =>
+    by_cases hnc : (g.node n).cls = c
+    · obtain ⟨hn, hph, hid, _⟩ := b.infl w trivial n phase dir uid tag wait hpc hnc
+      subst hph
+      have hp : (Phase.plain == Phase.pre) = false := rfl
+      simp only [hp, Bool.false_eq_true, if_false]
+      obtain ⟨sJ, st, hJn, hJw, hrec⟩ := recordResult_nonpre (reportOutcome g s w n .plain uid wait out).1 w n .plain (by decide)
+        (g.node n).name uid tag st0 dur
+      refine continueAfter_b hc hwf w n .plain dir fuel hw hf _ _ _ (Or.inr ⟨hnc, rfl, hid, ?_⟩)
+      rw [hrec]
+      have hnJ : n < sJ.nodes.length := by rw [hJn, hrn, b.nodesLen]; exact hn
+      have hJnd : ∀ j, sJ.nd j = s.nd j := fun j => (nd_of_nodes_eq' hJn j).trans (hndr j)
+      have hok := bas.pcOK w n .plain dir uid tag wait trivial hpc
+      have hmem := (bas.placeholder w n .plain dir uid tag wait trivial hpc).1 (by decide)
+      refine finish_b hc hw b hpc hnc (hJw.trans hrw) ?_ (fun j hj => ?_) ?_ ?_ ?_ ?_
+      · rw [nodes_length_setNd, hJn, hrn]
+      · rw [nd_setNd_ne sJ n j _ hj]; exact hJnd j
+      · rw [nd_setNd_eq sJ n _ hnJ, hJnd]
+      · rw [nd_setNd_eq sJ n _ hnJ, hJnd]
+      · rw [nd_setNd_eq sJ n _ hnJ, hJnd]
+        have h1 := settle_len (s.nd n).results ({ name := (g.node n).name, status := st, uid := uid, dur := dur } : Result) tag
+          (isPh_res_false _ tag rfl hok.2.1)
+        have h2 : 0 < ((s.nd n).results.filter (isPh tag)).length :=
+          List.length_pos_of_mem (List.mem_filter.mpr ⟨hmem, by rw [isPh_phOf]; simp⟩)
+        show (((s.nd n).results ++ [_]).filter (fun r => !isPh tag r)).length ≤ _
+        omega
+      · intro r hr
+        rw [nd_setNd_eq sJ n _ hnJ, hJnd] at hr
+        rcases List.mem_append.mp (List.mem_filter.mp hr).1 with h' | h'
+        · exact b.resOwn n hn hnc r h'
+        · rw [List.mem_singleton.mp h']
+    · refine continueAfter_b hc hwf w n phase dir fuel hw hf _ _ _ (Or.inl ⟨hnc, ?_⟩)
+      exact (hother hnc).fr hc hw (fr_recordResult_other g c _ w n phase _ uid tag st0 dur hnc)
+  · have hexh : BInv g c M sh (resumeTest.continueAfter g w n phase dir fuel (reportOutcome g s w n phase uid wait out).1 false
+        (reportOutcome g s w n phase uid wait out).2).1 All := by
+      by_cases hnc : (g.node n).cls = c
+      · obtain ⟨hn, hph, hid, _⟩ := b.infl w trivial n phase dir uid tag wait hpc hnc
+        refine continueAfter_b hc hwf w n phase dir fuel hw hf _ _ _ (Or.inr ⟨hnc, hph, hid, ?_⟩)
+        refine finish_b hc hw b hpc hnc hrw (by rw [hrn]) (fun j _ => hndr j) (by rw [hndr]) (by rw [hndr])
+          (by rw [hndr]; exact Nat.le_refl _) (fun r hr => ?_)
+        rw [hndr] at hr
+        exact b.resOwn n hn hnc r hr
+      · exact continueAfter_b hc hwf w n phase dir fuel hw hf _ _ _ (Or.inl ⟨hnc, hother hnc⟩)
+    split
+    · exact br.rewait hpcr (wait + 1)
+    · split
+      · exact br.rewait hpcr (wait + 1)
+      · exact hexh
+
+/-- one scheduler step of a real worker with fuel preserves the invariant -/
+theorem resume_b {g : Graph} {c : Nat} {M : Option Int} {sh : Shape} (hc : BClass g c M sh) (hwf : GraphWF g)
+    (s : State) (w : Nat) (out : Outcome) (fuel : Nat) (hw : w < g.workers.length) (hf : 0 < fuel)
+    (b : BInv g c M sh s All) (bas : Basic g s All) : BInv g c M sh (resume g s w out fuel).1 All := by
+  unfold resume
+  split
+  · next hpc => exact runLoop_b hc hwf w hw fuel s [] (b.open w (by rw [hpc]; exact notInC_of_nonTest rfl)) (Or.inr hf)
+  · next hpc => exact runLoop_b hc hwf w hw fuel s [] (b.open w (by rw [hpc]; exact notInC_of_nonTest rfl)) (Or.inr hf)
+  · next n phase dir uid tag wait hpc => exact resumeTest_b hc hwf s w n phase dir uid tag wait out fuel hw hf b bas hpc
+  · exact b
+  · exact b
+
+theorem binv_init {g : Graph} {c : Nat} {M : Option Int} {sh : Shape} (hc : BClass g c M sh) (hwf : GraphWF g) (ncls : Nat)
+    (store : List (String × List (String × String))) (hidden : List Nat) :
+    BInv g c M sh (initState g ncls store hidden) All := by
+  have hnd : ∀ m, (initState g ncls store hidden).nd m = {} := by
+    intro m
+    unfold initState State.nd
+    simp only [List.getD_eq_getElem?_getD, List.getElem?_map]
+    cases g.nodes[m]? <;> rfl
+  have hwd : ∀ v, ((initState g ncls store hidden).wd v) = { path := [g.root] } ∨ ((initState g ncls store hidden).wd v) = {} := by
+    intro v
+    unfold initState State.wd
+    simp only [List.getD_eq_getElem?_getD, List.getElem?_map]
+    cases g.workers[v]?
+    · right; rfl
+    · left; rfl
+  refine ⟨by simp [initState], by simp [initState], fun v x hx => ?_, fun j u _ _ h => ?_,
+    fun u _ n ph dir uid tag wait hpc _ => ?_, fun j _ _ r hr => ?_, fun j _ _ hne => ?_, fun v _ => ?_⟩
+  · rcases hwd v with h | h
+    · rw [h] at hx
+      have : x = g.root := by simpa using hx
+      rw [this]
+      exact ⟨hwf.root_lt, fun h => absurd h hc.rootNot⟩
+    · rw [h] at hx; simp at hx
+  · rw [hnd] at h; cases h
+  · rcases hwd u with h | h <;> rw [h] at hpc <;> cases hpc
+  · rw [hnd] at hr; simp at hr
+  · rw [hnd] at hne; exact absurd rfl hne
+  · have : scopedLen g (initState g ncls store hidden) c sh v = 0 := by
+      unfold scopedLen
+      have h0 : ∀ j ∈ g.classNodes c,
+          (if seen g sh v j then ((initState g ncls store hidden).nd j).results.length else 0) = 0 := by
+        intro j _; rw [hnd]; simp
+      rw [sum_map_congr _ _ (fun _ => 0) h0]
+      generalize g.classNodes c = l
+      induction l with
+      | nil => rfl
+      | cons a r ih => simp only [List.map_cons, List.sum_cons, ih]
+    rw [this]
+    omega
+
+theorem ReachableR.binv {g : Graph} (hwf : graphWF g = true) {c : Nat} {M : Option Int} {sh : Shape} (hc : BClass g c M sh)
+    {ncls : Nat} {store : List (String × List (String × String))} {s : State} (h : ReachableR g ncls store s) :
+    BInv g c M sh s All := by
+  induction h with
+  | init hidden => exact binv_init hc (GraphWF.of_bool hwf) ncls store hidden
+  | step w out fuel hr hw hf ih => exact resume_b hc (GraphWF.of_bool hwf) _ w out fuel hw hf ih (hr.basic hwf)
+
 end I2N.Trav
